@@ -30,6 +30,7 @@ def run(rep):
     rep.guard(i5, rep, w)
     import c10
     rep.guard(c10.v2, rep, w)     # a debug-only cap on probe steps: a long (legal) probe chain aborts string creation in the checked build
+    rep.guard(c01.r1_support, rep, w)     # equality by identity needs the table to keep every string for good: an entry that is released lets a second object with the same text appear
     if rep.tier == 'thorough':
         import witness
         witness.run_witnesses(rep, 'C11', ['W1StringConstructorIsPrivate', 'W2StringFieldsArePrivate'])
